@@ -460,6 +460,9 @@ func (sh *Shared) findNewHelpers() {
 	for _, g := range sh.funcs {
 		for _, b := range g.Blocks {
 			for _, in := range b.Instrs {
+				if _, dbg := in.(*ssa.DebugRef); dbg {
+					continue // source-position bookkeeping of the identifier, not a use
+				}
 				for _, op := range in.Operands(nil) {
 					f, ok := (*op).(*ssa.Function)
 					if !ok || !cand[f] {
